@@ -73,6 +73,11 @@ class Extractor:
             raise Undecided(f"unknown item kind {kind}")
         body = re.sub(r"^\s*///.*\n", "", body, flags=re.M)
         body = re.sub(r"^\s*#\[[^\]]*\]\s*\n", "", body, flags=re.M)
+        # Copy/Clone derives above the item are kept (the bodies copy these values); all other derives are dropped
+        pre = t[max(0, m.start() - 300):m.start()]
+        dm = re.search(r"#\[derive\(([^)]*)\)\]\s*(?:///[^\n]*\n\s*)*(?:#\[[^\]]*\]\s*)*$", pre)
+        if dm and "Copy" in dm.group(1):
+            body = "#[derive(Copy, Clone)]\n" + body
         self.rewrites.append(f"{rel}:{kind} {name}: R5 (attributes/doc comments dropped)")
         return body
 
